@@ -6,6 +6,7 @@
 package operators
 
 import (
+	"fmt"
 	"strings"
 
 	ahocorasick "github.com/petar-dambovaliev/aho-corasick"
@@ -53,9 +54,17 @@ func newPM(options plugintypes.OperatorOptions) (plugintypes.Operator, error) {
 		DFA:                  true,
 	})
 
-	m, _ := memoizeDo(options.Memoizer, data, func() (any, error) { return builder.Build(dict), nil })
+	m, _ := memoizeDo(options.Memoizer, pmCacheKey("dfa", dict), func() (any, error) { return builder.Build(dict), nil })
 	// TODO this operator is supposed to support snort data syntax: "@pm A|42|C|44|F"
 	return &pm{matcher: m.(ahocorasick.AhoCorasick), minLen: minPatternLen(dict)}, nil
+}
+
+// pmCacheKey is the pattern-cache key of a phrase matcher. The cache is shared by
+// every WAF of the process and by other kinds of compiled artefacts, so the key
+// names the kind and the full phrase list: a data set or file name alone is not
+// enough (two WAFs may give the same name different contents).
+func pmCacheKey(kind string, dict []string) string {
+	return fmt.Sprintf("pm:%s:%q", kind, dict)
 }
 
 func (o *pm) Evaluate(tx plugintypes.TransactionState, value string) bool {
